@@ -8,7 +8,7 @@
    of Python sets), every flag combination, every amount of fuel (so every prefix of a run).
    [EExecute t] = the actions of t start.  A task is finished once one of
    ESuccess / ESkipUpToDate / ESkipIgnore / EFailure was reported for it. *)
-From DoitV Require Import Base Dispatch Runner Parallel DispatchP DispatchInv RunnerTr RunnerP ParallelP.
+From DoitV Require Import Base Dispatch Runner Parallel DispatchP DispatchInv RunnerTr RunnerP ParallelP Implicit ImplicitP ImplicitRunP.
 Open Scope N_scope.
 
 (* serial runner: whenever the actions of t start, every task t declares a dependency on --
@@ -90,4 +90,101 @@ Example C01_parallel_nonvacuous :
   map (fun e => match e with PStart k w => (k, w) | _ => (99, 0%nat) end)
       (filter is_pstart (fst (run_parallel ex_tasks (fun _ _ => 0) (fun _ => 0) false false false 200 3 [1;0;2;1;0;1;1;2]%nat [0])))
   = [(5, 1%nat); (3, 0%nat); (2, 2%nat); (1, 0%nat); (4, 0%nat); (0, 0%nat)].
+Proof. vm_compute. reflexivity. Qed.
+
+(* ---- from the dodo file's spelling to the table (Model/Implicit.v) ----
+   The theorems above speak about the task table "as TaskControl.__init__ leaves it".  The next ones start one
+   step earlier, at the declarations: [dl] lists the tasks in definition order with `targets` and `file_dep`
+   AS WRITTEN ([SStr text]: a str, kept character for character; [SPath text]: a pathlib object, replaced by
+   str(path) = [path_str text], an oracle), [control_init path_str dl] is TaskControl.__init__ (unique names,
+   existing dependency names, the targets dictionary, add_implicit_task_dep).
+   [declared_dep path_str dl c x]: c names x in task_dep / setup / calc_dep, or some file_dep of c and some
+   target of x have the same key -- whatever the spelling ('./build/out.txt', 'build//out.txt', a Path ...)
+   and whatever the definition order and the iteration order of the file_dep set (field dc_fd_order, an
+   unconstrained oracle).  Whenever the actions of c start, x has finished. *)
+Theorem C01_serial_declared_dep_order :
+  forall path_str dl tasks wake_rank calc_rank continue_ always fuel selection pre c post x,
+    control_init path_str dl = inr tasks ->
+    declared_dep path_str dl c x ->
+    fst (run_serial tasks wake_rank calc_rank continue_ always fuel selection) = pre ++ EExecute c :: post ->
+    finished_in pre x.
+Proof.
+  intros path_str dl tasks wake_rank calc_rank continue_ always fuel selection pre c post x H D E.
+  exact (serial_declared_dep_order path_str dl tasks H wake_rank calc_rank continue_ always fuel selection pre c post x D E).
+Qed.
+Print Assumptions C01_serial_declared_dep_order.
+
+Theorem C01_parallel_declared_dep_order :
+  forall path_str dl tasks wake_rank calc_rank continue_ always proc fuel nprocs sched selection pre c w post x,
+    control_init path_str dl = inr tasks ->
+    declared_dep path_str dl c x ->
+    fst (run_parallel tasks wake_rank calc_rank continue_ always proc fuel nprocs sched selection) = pre ++ PStart c w :: post ->
+    pfinished pre x.
+Proof.
+  intros path_str dl tasks wake_rank calc_rank continue_ always proc fuel nprocs sched selection pre c w post x H D E.
+  exact (parallel_declared_dep_order path_str dl tasks H wake_rank calc_rank continue_ always proc fuel nprocs sched selection pre c w post x D E).
+Qed.
+Print Assumptions C01_parallel_declared_dep_order.
+
+(* a file_dep RETURNED by a calc_dep task cc of t (directly or through further returned calc_dep: [eff_calc])
+   whose key is the key of a target of p: p was reported successful / up-to-date before the actions of t start *)
+Theorem C01_serial_returned_file_dep_order :
+  forall path_str dl tasks wake_rank calc_rank continue_ always fuel selection pre t post cc p,
+    control_init path_str dl = inr tasks ->
+    eff_calc tasks t cc -> returned_file_on_target path_str dl cc p ->
+    fst (run_serial tasks wake_rank calc_rank continue_ always fuel selection) = pre ++ EExecute t :: post ->
+    good_in pre p.
+Proof.
+  intros path_str dl tasks wake_rank calc_rank continue_ always fuel selection pre t post cc p H C R E.
+  exact (serial_returned_file_order path_str dl tasks H wake_rank calc_rank continue_ always fuel selection pre t post cc p C R E).
+Qed.
+Print Assumptions C01_serial_returned_file_dep_order.
+
+Theorem C01_parallel_returned_file_dep_order :
+  forall path_str dl tasks wake_rank calc_rank continue_ always proc fuel nprocs sched selection pre t w post cc p,
+    control_init path_str dl = inr tasks ->
+    eff_calc tasks t cc -> returned_file_on_target path_str dl cc p ->
+    fst (run_parallel tasks wake_rank calc_rank continue_ always proc fuel nprocs sched selection) = pre ++ PStart t w :: post ->
+    pgood pre p.
+Proof.
+  intros path_str dl tasks wake_rank calc_rank continue_ always proc fuel nprocs sched selection pre t w post cc p H C R E.
+  exact (parallel_returned_file_order path_str dl tasks H wake_rank calc_rank continue_ always proc fuel nprocs sched selection pre t w post cc p C R E).
+Qed.
+Print Assumptions C01_parallel_returned_file_dep_order.
+
+(* the table contains no invented task_dep: each one was written, or is the producer (by key) of a file_dep *)
+Theorem C01_table_task_dep_only :
+  forall path_str dl tb c dc x,
+    control_init path_str dl = inr tb -> In (c, dc) dl ->
+    (exists T, tb c = Some T /\ In x (t_task_dep T)) ->
+    In x (t_task_dep (dc_task dc)) \/
+    exists tg f, add_targets path_str (fun _ => None) dl = Some tg /\ In f (dc_file_dep dc) /\ tg (key path_str f) = Some x.
+Proof. exact table_task_dep_only. Qed.
+Print Assumptions C01_table_task_dep_only.
+
+(* non-vacuity: texts 7 = './build/out.txt', 8 = 'build/out.txt', 9 = 'src.txt'; str(PurePath(7)) = 8.
+   Task 0 (consumer, defined first) has file_dep './build/out.txt' and 'src.txt', task 1 (producer) has the
+   target './build/out.txt', both written as str with the same non-canonical spelling: task 1 runs first *)
+Definition ex_ps (x : name) : name := match x with 7 => 8 | _ => x end.
+Definition ex_decl : list (name * decl) :=
+  [ (0, Build_decl empty_task [] [SStr 7; SStr 9] [9; 7] []);
+    (1, Build_decl empty_task [SStr 7] [SStr 9] [] []) ].
+Example C01_declared_nonvacuous :
+  match control_init ex_ps ex_decl with
+  | inr tb => map (fun e => match e with EExecute k => k | _ => 99 end)
+                  (filter is_exec (fst (run_serial tb (fun _ _ => 0) (fun _ => 0) false false 200 [0; 1])))
+  | inl _ => [] end = [1; 0]
+  /\ declared_dep ex_ps ex_decl 0 1.
+Proof.
+  split. - vm_compute. reflexivity.
+  - apply dd_file. exists (Build_decl empty_task [] [SStr 7; SStr 9] [9; 7] []), (Build_decl empty_task [SStr 7] [SStr 9] [] []), (SStr 7), (SStr 7).
+    simpl. intuition.
+Qed.
+
+(* the same file written as a Path on one side and as the non-canonical str on the other has two different
+   keys ('build/out.txt' vs './build/out.txt'): doit sees no dependency there, and neither does [declared_dep] *)
+Example C01_declared_different_keys_no_edge :
+  match control_init ex_ps [ (0, Build_decl empty_task [] [SPath 7] [] []); (1, Build_decl empty_task [SStr 7] [] [] []) ] with
+  | inr tb => match tb 0 with Some T => t_task_dep T | None => [99] end
+  | inl _ => [98] end = [].
 Proof. vm_compute. reflexivity. Qed.
